@@ -289,7 +289,7 @@ def run(ctx):
             report_violation(ctx, "ranges:misplaced-fallback-accepted", {"case": project_text(p), "implementation": o["impl"].get("result"),
                                                                         "expected_by_spec": "error InvalidFallback: a fallback is only allowed in the last branch"})
         # (a `_` that is one alternative of a count list does not make the branch the float types' mandatory fallback: MissingFallback there)
-        if not p["fallback_misplaced"] and "ok" not in o["ci"] and not (err == "MissingFallback" and '"f64"' in json.dumps(proj.file_list(p))):
+        if not p["fallback_misplaced"] and "ok" not in o["ci"] and not (err == "MissingFallback" and "f64" in json.dumps(proj.file_list(p))):
             report_violation(ctx, "ranges:fallback-in-last-branch-rejected", {"case": project_text(p), "implementation": o["impl"].get("result")})
     generic_pipeline_check(ctx, [], fb, fb_oracle, "C04-fallback-position")
     # what the *generated* `match count { .. }` / if-chains render at run time: counts on and next to every bound of the declared branches
